@@ -8,6 +8,7 @@
 -/
 import ZanVerif.Data.Batch
 import ZanVerif.Gen.Ttl
+import ZanVerif.Node.BatchOpLemmas
 
 namespace Z.Props.C07
 
@@ -24,5 +25,72 @@ theorem C07_repeated_key_witness :
 /-- only commands that answer OK / an error (no value computed from the data) are batchable, and none of
     them is a read-modify-write of a counter or a collection size: the regenerated set is exactly this -/
 theorem C07_batchable_set : Gen.batchableCmds = ["del", "hmset", "set", "setex"] := by decide
+
+/-! ### the batch operator of the apply loop (model `Z.BatchOp`, decision function regenerated as `Gen.isBatchable`) -/
+
+open Z.BatchOp in
+/-- **one apply event = sequential execution.**  For every committed store and every list of write requests, if each
+    request whose name is in the (regenerated) batchable set — and, for DEL, that names one key — is a single-key command
+    on its first key, then processing the event with the operator (admission by the regenerated `Gen.isBatchable`, reads
+    of admitted requests on the committed store, buffered writes, kept replies, commit before every request that is not
+    admitted and at the end) gives the store and the replies of executing the requests one after the other. -/
+theorem C07_event_is_sequential {K V R : Type} [DecidableEq K] (run : Req K V R → Option V → Option V × R)
+    (s : Z.Batch.Store K V) (reqs : List (Req K V R)) (h : ∀ rq ∈ reqs, Admissible run rq) :
+    applyEvent run s reqs = applySeqReqs s reqs := by
+  have inv0 : Inv ({ store := s, pend := [], dup := [], out := [] } : St K V R) := closed_inv s []
+  have := foldl_spec run reqs _ inv0 h
+  simp only [view, commitOpen, Z.Batch.applyBatched, Z.Batch.runBatch, Z.Batch.commit, List.nil_append] at this
+  simp only [applyEvent, commitOpen]
+  exact this
+
+open Z.BatchOp in
+theorem C07_aux_seq_append {K V R : Type} (s : Z.Batch.Store K V) (a b : List (Req K V R)) :
+    applySeqReqs s (a ++ b) = ((applySeqReqs (applySeqReqs s a).1 b).1, (applySeqReqs s a).2 ++ (applySeqReqs (applySeqReqs s a).1 b).2) := by
+  induction a generalizing s with
+  | nil => simp [applySeqReqs]
+  | cons c cs ih => simp only [List.cons_append, applySeqReqs]; rw [ih]
+
+open Z.BatchOp in
+/-- **the grouping of the log into apply events does not matter**: however the committed entries are cut into events
+    (which depends on timing and differs between replicas and between live apply and replay), the data and the replies
+    are those of the sequential execution of the log -/
+theorem C07_grouping_independent {K V R : Type} [DecidableEq K] (run : Req K V R → Option V → Option V × R)
+    (s : Z.Batch.Store K V) (events : List (List (Req K V R))) (h : ∀ ev ∈ events, ∀ rq ∈ ev, Admissible run rq) :
+    applyEvents run s events = applySeqReqs s events.flatten := by
+  induction events generalizing s with
+  | nil => rfl
+  | cons ev rest ih =>
+    simp only [applyEvents, List.flatten_cons]
+    rw [C07_event_is_sequential run s ev (h ev List.mem_cons_self),
+      ih _ (fun e he => h e (List.mem_cons_of_mem _ he)), C07_aux_seq_append]
+
+open Z.BatchOp in
+/-- two groupings of the same log agree -/
+theorem C07_two_groupings_agree {K V R : Type} [DecidableEq K] (run : Req K V R → Option V → Option V × R)
+    (s : Z.Batch.Store K V) (e1 e2 : List (List (Req K V R))) (hsame : e1.flatten = e2.flatten)
+    (h1 : ∀ ev ∈ e1, ∀ rq ∈ ev, Admissible run rq) (h2 : ∀ ev ∈ e2, ∀ rq ∈ ev, Admissible run rq) :
+    applyEvents run s e1 = applyEvents run s e2 := by
+  rw [C07_grouping_independent run s e1 h1, C07_grouping_independent run s e2 h2, hsame]
+
+/-- the admission rule as the code states it: a request joins the open batch only if its key is not a key of the batch,
+    its command is in the batchable set, and a DEL names one key -/
+theorem C07_admission_rule {bs : List String} {name : String} {argc : Nat} {inDup : Bool} {n : Nat}
+    (h : Gen.isBatchable bs name argc inDup n = true) :
+    inDup = false ∧ bs.contains name = true ∧ (name = "del" → argc ≤ 2) := Z.BatchOp.isBatchable_true h
+
+/-- why a DEL of several keys must not be admitted (only its first key would be recorded): `DEL k0 k1` admitted into
+    a batch followed by `SET k1 v NX` differs from the sequential execution -/
+def wDel2 : Z.BatchOp.Req Nat Nat Nat :=
+  ⟨"del", 3, 0, fun s => (Z.Batch.put (Z.Batch.put s 0 none) 1 none, 2)⟩
+def wSetNx : Z.BatchOp.Req Nat Nat Nat :=
+  ⟨"set", 4, 1, fun s => match s 1 with | some _ => (s, 0) | none => (Z.Batch.put s 1 (some 9), 1)⟩
+/-- non-vacuity of `C07_event_is_sequential` and the reason for the DEL rule: with the real rule the event
+    [del k0 k1 ; set k1 9 nx] on a store holding k1 ends with k1 = 9 and replies [2, 1] -/
+example : ((Z.BatchOp.applyEvent (fun rq v => match rq.name with
+      | "set" => (match v with | some x => (some x, 0) | none => (some 9, 1))
+      | _ => (none, 0)) (fun k => if k = 1 then some 5 else none) [wDel2, wSetNx]).1 1,
+    (Z.BatchOp.applyEvent (fun rq v => match rq.name with
+      | "set" => (match v with | some x => (some x, 0) | none => (some 9, 1))
+      | _ => (none, 0)) (fun k => if k = 1 then some 5 else none) [wDel2, wSetNx]).2) = (some 9, [2, 1]) := by decide
 
 end Z.Props.C07
